@@ -45,7 +45,16 @@ def _impl():
 def build_surface(spec):
     sf = _impl()[0]
     n = spec.get('n', 1.0)
-    kw = dict(typ=spec['kind'], P=list(spec['P']), R=(tuple(spec['R']) if spec.get('R') is not None else None))
+    sfm = _impl()[0]
+    base = {'refl': 'refl', 'reflect': 'refl', 'refr': 'refr', 'refract': 'refr', 'eval': 'eval'}[spec['kind']]
+    form = spec.get('form', 0)
+    # every documented way of naming the surface type: short / long spelling (any case) / the STYPE integer
+    typ = {'refl': ['refl', 'Reflect', sfm.STYPE_REFLECT], 'refr': ['refr', 'REFRACT', sfm.STYPE_REFRACT],
+           'eval': ['eval', 'Eval', sfm.STYPE_EVAL]}[base][form % 3]
+    P = list(spec['P'])
+    if form >= 3 and P[0] == 0 and P[1] == 0:
+        P = [P[2], [P[2]], [0.0, P[2]], np.array([0.0, 0.0, P[2]])][form % 4]   # documented: scalar z, or the trailing coordinates
+    kw = dict(typ=typ, P=P, R=(tuple(spec['R']) if spec.get('R') is not None else None))
     # mirrors and evaluation planes have no index of their own (n=None), exactly as users build them
     nfun = (lambda wvl, n=n: n) if spec['kind'] in ('refr', 'refract') else None
     sh = spec['shape']
@@ -58,6 +67,17 @@ def build_surface(spec):
     if sh[0] == 'offaxis':
         return sf.Surface.off_axis_conic(c=sh[1], k=sh[2], dx=sh[3], dy=sh[4], n=nfun, **kw)
     raise ValueError(sh)
+
+
+def _rot_deg(zyx):
+    """independent reading of make_rotation_matrix: angles (z, y, x) in degrees, missing ones zero, R = Rx Ry Rz"""
+    a = np.zeros(3)
+    a[:len(zyx)] = zyx
+    g, b, al = np.radians(a)
+    Rx = np.array([[1, 0, 0], [0, math.cos(al), -math.sin(al)], [0, math.sin(al), math.cos(al)]])
+    Ry = np.array([[math.cos(b), 0, math.sin(b)], [0, 1, 0], [-math.sin(b), 0, math.cos(b)]])
+    Rz = np.array([[math.cos(g), -math.sin(g), 0], [math.sin(g), math.cos(g), 0], [0, 0, 1]])
+    return Rx @ Ry @ Rz
 
 
 def _shape_tokens(sh):
@@ -158,7 +178,9 @@ def check_physics(specs, mats, P_hist, S_hist, n0):
         so = Rm_ @ Sout
         G, N = implicit(sp['shape'], X)
         scale = max(1.0, float(np.abs(X).max()))
-        if abs(G) > TOL * scale * max(1.0, float(np.linalg.norm(N))):
+        # Newton stops at |ds| < 100 eps and returns the point before that last step: the residual is ~1e-14; 2e-12 leaves room
+        # for rounding in the frame change and still sees a loosened stopping rule
+        if abs(G) > 2e-12 * scale * max(1.0, float(np.linalg.norm(N))):
             bad.append(f'surface {j}: hit point off the surface, implicit-equation residual {G:.3e}')
         # the hit point must be on the incoming ray
         d = Pout - Pin
@@ -337,6 +359,13 @@ def _rand_frame(rng, tilted, z=0.0):
 
 
 def gen_prescription(rng, idx):
+    pr = _gen_prescription(rng, idx)
+    for j, sp in enumerate(pr['specs']):
+        sp['form'] = int((idx // 8 + j) % 6)
+    return pr
+
+
+def _gen_prescription(rng, idx):
     """-> dict(specs=[...], a=semi-aperture, n0=...)"""
     a = float(rng.choice([2.0, 5.0, 12.5]))
     mode = idx % 8
@@ -554,6 +583,14 @@ def correspondence(ctx):
             ctx.disagree('trace', {'surfaces': specs}, f'constructor raised {type(ex).__name__}: {ex}', 'surface exists')
             continue
         mats = [None if s.R is None else np.asarray(s.R, dtype=float) for s in surfs]
+        for sp, Rm in zip(specs, mats):
+            if sp.get('R') is not None and not _cmp(Rm, _rot_deg(sp['R'])):
+                ctx.pred_fail('surface_frame', {'kind': 'refl', 'P': [0.0, 0.0, 0.0], 'R': sp['R'], 'shape': ['plane'], 'form': 0},
+                              'Surface.R is not Rx.Ry.Rz of the documented (z, y, x) angles in degrees')
+        for sp, sf_ in zip(specs, surfs):
+            if not _cmp(sf_.P, _pvec(sp['P'])):
+                ctx.pred_fail('surface_frame', {'kind': 'refl', 'P': list(sp['P']), 'R': None, 'shape': ['plane'], 'form': sp.get('form', 0)},
+                              f'Surface.P = {np.asarray(sf_.P).tolist()} for the documented position form')
         P, S, tags = _rays_for(rng, specs[0], mats[0], pr['a'], nrays, pr['n0'], maxang=pr.get('maxang'), backward=pr.get('backward', False))
         for single in ((False, True) if (idx // 8) % 2 == 0 else (False,)):
             try:
@@ -579,6 +616,8 @@ def correspondence(ctx):
             S = S if S @ gh > 0.15 else gh
             if n * np.linalg.norm(np.cross(S, gh)) > 0.85 * n1:
                 S = gh
+        if i % 6 == 3:
+            S = -S                         # travelling against the normal vector
         jobs.append(('reflect', S, g))
         lines.append('reflect ' + ' '.join(C.f2w(v) for v in list(S) + list(g)))
         jobs.append(('refract', n, n1, S, g))
@@ -730,6 +769,8 @@ def correspondence(ctx):
                 ctx.pred_fail('refract', case, f'|S\'| = {np.linalg.norm(out):.12f} with a normal vector of length {np.linalg.norm(g):.6f}')
             elif np.abs(n1 * np.cross(out, gh) - n * np.cross(S, gh)).max() > TOL * max(n, n1):
                 ctx.pred_fail('refract', case, 'n sin i != n\' sin i\' about the direction of the normal vector')
+            elif (out @ gh) * (S @ gh) <= 0:
+                ctx.pred_fail('refract', case, f'the refracted ray does not continue through the surface: S.r = {S @ g:.6f}, S\'.r = {out @ g:.6f}')
         elif kind == 'rot':
             _, ang = job
             m = np.array([C.w2f(t) for t in next(rep).split()]).reshape(3, 3)
@@ -947,6 +988,13 @@ def replay(inp):
         for b in bad:
             print('  ', b)
         return bool(bad)
+    if item == 'surface_frame':
+        surf = build_surface({**c, 'shape': tuple(c['shape'])})
+        print('Surface.P =', np.asarray(surf.P).tolist(), ' Surface.R =', None if surf.R is None else np.asarray(surf.R).tolist())
+        bad = not _cmp(surf.P, _pvec(c['P']))
+        if c.get('R') is not None:
+            bad = bad or not _cmp(surf.R, _rot_deg(c['R']))
+        return bool(bad)
     if item == 'qtype_trace':
         bad = q_eval(c, [c['P']], [c['S']])
         for _, b in bad:
@@ -970,7 +1018,8 @@ def replay(inp):
         gh = g[0] / np.linalg.norm(g[0])
         dev = np.abs(c['nprime'] * np.cross(out, gh) - c['n'] * np.cross(S[0], gh)).max()
         print('S\' =', out.tolist(), '|S\'| =', np.linalg.norm(out), 'Snell residual', dev)
-        return (not np.isfinite(out).all()) or abs(np.linalg.norm(out) - 1) > TOL or dev > TOL * max(c['n'], c['nprime'])
+        return (not np.isfinite(out).all()) or abs(np.linalg.norm(out) - 1) > TOL or dev > TOL * max(c['n'], c['nprime']) \
+            or (out @ gh) * (S[0] @ gh) <= 0
     if item == 'reflect':
         S = np.array(c['S'])
         g = np.array(c['r'])
